@@ -33,6 +33,7 @@ THEOREMS = [
     "set_then_get", "invalid_has_no_effect", "attr_error_no_effect", "link_invariant",
     "clone_copies", "clone_independent_both_ways", "follow_refuted", "follow_partial",
     "send_uses_what_was_set", "released_transport_is_detached", "released_transport_can_be_handed_over",
+    "caller_headers_win",
 ]
 
 # operation results (same numbering as code_out in coq/C14/Model.v)
@@ -49,6 +50,9 @@ TW = 8                    # identity of transport object i made for client a: a 
 TAG_OF_INDEX = {0: 16, 1: 15, 2: 17, 3: 18}
 TRANSPORT_TAGS = (15, 16, 17, 18)
 TEST_URL = "http://h.invalid/c14"
+# the two headers suds sets itself on a SOAP request (sudsutil.doc_wsdl: soapAction="my-soap-action")
+SUDS_CONTENT_TYPE = "text/xml; charset=utf-8"
+SUDS_SOAPACTION = (b'"my-soap-action"', '"my-soap-action"')
 
 # names whose values can make an invocation fail before the transport is reached;
 # histories containing a Us operation do not assign them
@@ -187,8 +191,6 @@ class Env(object):
             (3, 0): 0.5, (3, 1): 1.5, (3, 2): 30.0, (3, 3): 90.0,
             (4, 0): "a", (4, 1): "svc", (4, 2): "http://h.invalid/x", (4, 3): "u", (4, 4): "",
             (5, 0): b"a",
-            (6, 0): {}, (6, 1): {"http": "h.invalid:1"}, (6, 2): {"X-a": "1"},
-            (6, 3): {"X-a": "2", "X-b": "3"}, (6, 4): {"https": "g.invalid:2", "http": "g.invalid:3"},
             (7, 0): [], (7, 1): [p1], (7, 2): [p1, p2],
             (8, 0): (), (8, 1): (p1,), (8, 2): ("h", 1),
             (9, 1): stamp(type("Plain", (object,), {})(), (9, 1)),
@@ -201,6 +203,12 @@ class Env(object):
         }
         for n in (0, 1, 2, 5, 7, 90, 120):
             pool[(2, n)] = n
+        # dict values (proxy maps, header maps incl. ones whose names collide with suds' own
+        # Content-Type / SOAPAction in several spellings): tools/tables_c14.py, also in the model
+        for k, d in tables_c14.DICT_POOL.items():
+            pool[(6, k)] = dict(d)
+        self.header_keys = dict(tables_c14.HEADER_KEYS)
+        self.header_value_ids = tables_c14.header_value_ids()
         self.pool = pool
         suds.store.defaultDocumentStore._c14 = (12, 0)
         # structural keys of the pooled containers (elements may be deep copies)
@@ -444,24 +452,35 @@ class World(object):
         rec = self.last_use
         if rec is None or "error" in rec:
             return OEXC
-        hdrs = dict(rec["headers"])
         cred = rec["cred"]
-        low = {}
-        for k, v in hdrs.items():
-            if k.lower() == "authorization":
-                cred = self._basic(v)
-            elif k.lower() not in ("content-type", "soapaction"):
-                low[k.lower()] = v
-        extra = low
-        for k, d in self.env.pool.items():
-            if k[0] == 6 and dict((x.lower(), y) for x, y in d.items()) == low:
-                extra = d
+        # the header map the transport was handed: names without case, of several
+        # spellings of one name the last one counts (what urllib sends)
+        eff = {}
+        try:
+            for k, v in dict(rec["headers"]).items():
+                lk = k.lower() if isinstance(k, str) else repr(k)
+                if lk == "authorization":
+                    cred = self._basic(v)
+                else:
+                    eff[lk] = v
+        except Exception:
+            return OEXC
         if not (isinstance(cred, tuple) and len(cred) == 2):
             cred = ("?", "?")
         out = [code(("val",) + self.enc(rec["timeout"])), code(("val",) + self.enc(rec["proxies"])),
                code(("val",) + self.enc(cred[0])), code(("val",) + self.enc(cred[1]))]
         if with_headers:
-            out = [code(("val",) + self.enc(extra))] + out
+            hl = []
+            for lk, v in eff.items():
+                if lk == "content-type" and v == SUDS_CONTENT_TYPE:
+                    vid = 0
+                elif lk == "soapaction" and v in SUDS_SOAPACTION:
+                    vid = 0
+                else:
+                    vid = self.env.header_value_ids.get(v, 98) if isinstance(v, str) else 98
+                hl.append((self.env.header_keys.get(lk, 99), vid))
+            for kid, vid in sorted(hl):
+                out += [kid, vid]
         return ("w", out)
 
     def _basic(self, value):
@@ -595,7 +614,7 @@ def py_op(op, env):
     if k == "Sw":
         return "read %d options of %s" % (len(op[2]), who(op[1]))
     if k == "Us":
-        return "client%d.service.f('x')  # what its transport uses: [headers, timeout, proxy, user, password]" % op[1]
+        return "client%d.service.f('x')  # what its transport uses: [timeout, proxy, user, password, (header name, value)...]" % op[1]
     if k == "Uo":
         return "%s.open(Request(url))  # what it uses: [timeout, proxy, user, password]" % who(op[1])
     return "client%d.clone()" % op[1]
@@ -826,7 +845,8 @@ def use_alphabet(env, base):
         ("Cl", 0),                                        # clone
         ("St", ("C", 1), P, (6, 4), "attr"),              # proxy on the clone
         ("Us", 1),                                        # send through the clone
-        ("St", ("T", 1, base), H, (6, 2), "attr"),        # headers on the clone's transport
+        ("St", ("T", 1, base), H, (6, 6), "attr"),        # headers on the clone's transport (content-type, SOAPAction)
+        ("St", ("C", 0), H, (6, 5), "set_options"),       # headers through the client, overriding Content-Type
         ("St", ("C", 0), U, (4, 3), "set_options"),       # credentials
         ("St", ("C", 0), W, (4, 0), "attr"),
     ]
@@ -908,7 +928,7 @@ def exhaustive_histories(env, tier):
         for n in range(1, 5):
             add(hand, n, nodes=nodes2, opens=[("T", 0, 0), ("T", 0, 2)])
         scope = ("every history of length <=4 over 12 operations, <=6 over 6 operations, <=3 over 18 operations; "
-                 "<=4 (<=3) over 10 send/option operations on the default (each other) transport class; <=4 over 11 "
+                 "<=4 (<=3) over 11 send/option operations on the default (each other) transport class; <=4 over 11 "
                  "replace/release/hand-over operations")
     else:
         for n in range(1, 4):
@@ -925,7 +945,7 @@ def exhaustive_histories(env, tier):
         for n in range(1, 4):
             add(hand, n, nodes=nodes2, opens=[("T", 0, 0), ("T", 0, 2)])
         scope = ("every history of length <=3 over 12 operations, <=4 over 6 operations, <=2 over 18 operations; "
-                 "<=3 (<=2) over 10 send/option operations on the default (each other) transport class; <=3 over 11 "
+                 "<=3 (<=2) over 11 send/option operations on the default (each other) transport class; <=3 over 11 "
                  "replace/release/hand-over operations")
     return out, scope
 
